@@ -80,7 +80,10 @@ var acsNames = map[byte]rune{'+': tcell.RuneRArrow, ',': tcell.RuneLArrow, '-': 
 	'j': tcell.RuneLRCorner, 'k': tcell.RuneURCorner, 'l': tcell.RuneULCorner, 'm': tcell.RuneLLCorner, 'n': tcell.RunePlus, 'o': tcell.RuneS1,
 	'p': tcell.RuneS3, 'q': tcell.RuneHLine, 'r': tcell.RuneS7, 's': tcell.RuneS9, 't': tcell.RuneLTee, 'u': tcell.RuneRTee, 'v': tcell.RuneBTee,
 	'w': tcell.RuneTTee, 'x': tcell.RuneVLine, 'y': tcell.RuneLEqual, 'z': tcell.RuneGEqual, '{': tcell.RunePi, '|': tcell.RuneNEqual,
-	'}': tcell.RuneSterling, '~': tcell.RuneBullet}
+	'}': tcell.RuneSterling, '~': tcell.RuneBullet,
+	// the four positions terminfo(5) leaves unnamed, as the VT100's special graphics set has
+	// them (VT100 User Guide, table 3-9): 0142 HT, 0143 FF, 0144 CR, 0145 LF
+	'b': 0x2409, 'c': 0x240c, 'd': 0x240d, 'e': 0x240a}
 
 // acs returns byte->glyph (for the terminal) and the glyph set (what the description offers).
 func acs(ti *terminfo.Terminfo) (map[byte]rune, map[rune]bool) {
@@ -263,6 +266,19 @@ func sweep(entries []common.Entry) {
 			r := newRig(e.Ti, cs.name, cs.locale, 6, 1)
 			cls := termClass(e.Ti)
 			r.s.Show()
+			// control characters are never shown as themselves (a cell holding one is a blank)
+			// and no fallback is registered for them: CanDisplay is false either way
+			for cr := rune(0); cr < 0xa0; cr++ {
+				if cr >= 0x20 && cr < 0x7f {
+					continue
+				}
+				w.R.Evaluations++
+				if r.s.CanDisplay(cr, false) || r.s.CanDisplay(cr, true) {
+					w.Violation("candisplay-control:"+cls+":"+cs.name, fmt.Sprintf("%s (%s), charset %s: CanDisplay(U+%04X) = (%v,%v), but a cell holding this control character is shown as a blank, never as the rune or a substitute", e.Name, cls, cs.name, cr, r.s.CanDisplay(cr, false), r.s.CanDisplay(cr, true)),
+						map[string]interface{}{"entry": e.Name, "charset": cs.name, "rune": cr})
+					break
+				}
+			}
 			n := 0
 			max := rune(0xffff)
 			for x := rune(0x20); x <= max+64; x++ {
@@ -447,6 +463,17 @@ func acsAll(entries []common.Entry) {
 	sort.Slice(runes, func(i, j int) bool { return runes[i] < runes[j] })
 	css := [][2]string{{"US-ASCII", "C"}, {"ISO8859-1", "en_US.ISO8859-1"}, {"KOI8-R", "ru_RU.KOI8-R"}}
 	item := 1000
+	// a description that offers the whole VT100 set (as linux-m2 or putty-m2 in the system
+	// database do): the built-in vt100 with the unnamed positions added
+	for _, e := range entries {
+		if e.Name == "vt100" {
+			c := *e.Ti
+			c.Name, c.Aliases = "vt100+full-graphics", nil
+			c.AltChars += "bbccddeehhii"
+			entries = append(append([]common.Entry{}, entries...), common.Entry{Name: c.Name, Names: []string{c.Name}, Ti: &c})
+			break
+		}
+	}
 	for _, e := range entries {
 		if !strings.HasPrefix(e.Ti.SetCursor, "\x1b[%i%p1%d;%p2%dH") {
 			continue // the reference terminal decodes the ECMA-48 family only
